@@ -20,8 +20,9 @@ inductive SrcBody
   | rawSeq
   /-- `_cloudpickle_key(obj)` -/
   | digest
-  /-- `to_hashable(<expression of obj>, fb)` (the pandas branches) -/
-  | recurse
+  /-- `to_hashable(<expression of obj>, fb)` (the pandas branches); `arg` is the expression as `ast.unparse` prints it
+      (`obj.to_dict()`, `obj.to_dict('list')`) after the local assignments of the branch have been substituted -/
+  | recurse (arg : String)
   /-- anything the translator does not recognise -/
   | other
   deriving DecidableEq, Repr
@@ -137,6 +138,20 @@ def dispatchMatchesModel (bs : List SrcBranch) (fallback : SrcBranch) : Bool :=
     | some b => b.agrees k.expected
     | none => false) &&
   (firstMatch bs (.other 0)).isNone && fallback.agrees (Kind.opaque 0 []).expected
+
+/-- the two pandas branches as `Model/HashablePandas.lean` mirrors them: a Series is keyed by `(obj.name,
+    to_hashable(obj.to_dict()))` (`seriesKey`: the index labels are the dict keys), a DataFrame by
+    `to_hashable(obj.to_dict('list'))` (`frameKey`: the column labels are the dict keys) -/
+def pandasExpected : List SrcBranch :=
+  [{ tests := ["pandas.Series"], guard := "pandas", attrs := ["name"], body := .recurse "obj.to_dict()", tagged := true },
+   { tests := ["pandas.DataFrame"], guard := "pandas", attrs := [], body := .recurse "obj.to_dict('list')", tagged := true }]
+
+/-- each pandas class is tested by exactly one branch of the source, and that branch is the expected one -/
+def pandasMatchesModel (bs : List SrcBranch) : Bool :=
+  pandasExpected.all (fun e =>
+    (match bs.filter (fun b => b.tests.any (fun t => e.tests.contains t)) with
+     | [b] => b == e
+     | _ => false))
 
 /-- The prelude is the one `key true` mirrors: the marker string, `hash(obj)` first, the marker-headed escape, the class
     object as tag. -/
